@@ -7,4 +7,6 @@ export CARGO_TERM_COLOR=never
 export RUSTFLAGS="--cfg parity_scale_codec_verif"
 cp -f /repo/Cargo.lock Cargo.lock.base 2>/dev/null || true
 cargo build --release -p psc-verif
+RUSTFLAGS="$RUSTFLAGS -Zsanitizer=address" cargo +nightly build --release -p psc-verif \
+	--target x86_64-unknown-linux-gnu --target-dir "$PWD/target/asan" || echo "note: ASan build failed (C10 will run natively only)"
 echo "setup done"
